@@ -16,10 +16,11 @@ func init() {
 			"NOT decided: that the text of a row parses back to the same value (quoting, separators); encoding/json and encoding/csv are trusted."
 		rules.ProjectionSharing(p, r, "C09-proj")
 		rules.NoDropExits(p, r, "C09-nodrop")
+		rules.ReturnCompleteness(p, r, "C09-ret")
 		rules.PerRowEmission(p, r, "C09-emit")
 		rules.OrientationParity(p, r, "C09-orient")
 		rules.SelectorRenderingLossless(p, r, "C09-sel")
 		rules.CLIFileWriter(p, r, "C09-file")
-		r.Floor("C09-nodrop", 25)
+		r.Floor("C09-nodrop", 1)
 	})
 }
